@@ -134,10 +134,11 @@ class Run:
 # ---- helpers shared by the property plans -------------------------------------------------
 
 def real_tuples(doc):
-    """real abstract document -> multiset of tuples in the shape of Pipeline!Strip"""
+    """real abstract document -> multiset of tuples in the shape of PipelineOps!Strip (+ grouped flag)"""
     out = []
     for e in doc.get("elems", []):
         n = e["n"]
+        g = 1 if e.get("g", 0) > 0 else 0
         if any(v % 1000 for v in n):
             out.append(("inexact", e["k"], tuple(n)))
             continue
@@ -145,18 +146,18 @@ def real_tuples(doc):
         br = 1 if "broken" in e["cls"] else 0
         if e["k"] == "line":
             mk = sorted(c for c in e["cls"] if "marked" in c)
-            out.append(("line", u[0], u[1], u[2], u[3], br, ",".join(mk)))
+            out.append(("line", u[0], u[1], u[2], u[3], br, ",".join(mk), g))
         elif e["k"] == "rect":
-            out.append(("rect", u[0], u[1], u[2], u[3], u[4], br, 1 if "filled" in e["cls"] else 0))
+            out.append(("rect", u[0], u[1], u[2], u[3], u[4], br, 1 if "filled" in e["cls"] else 0, g))
         elif e["k"] == "path":
             out.append(("path", u[0], u[1], u[2], e["fl"][2] if len(e["fl"]) == 3 else -1, u[4], u[5],
-                        e["fl"][1] if len(e["fl"]) == 3 else -1))
+                        e["fl"][1] if len(e["fl"]) == 3 else -1, g))
         elif e["k"] == "text":
-            out.append(("text", u[0], u[1], tuple(e["s"])))
+            out.append(("text", u[0], u[1], tuple(e["s"]), g))
         elif e["k"] == "circle":
-            out.append(("circle", u[0], u[1], u[2], 1 if "filled" in e["cls"] else 0))
+            out.append(("circle", u[0], u[1], u[2], 1 if "filled" in e["cls"] else 0, g))
         else:
-            out.append((e["k"],) + tuple(u))
+            out.append((e["k"],) + tuple(u) + (g,))
     return Counter(out)
 
 
@@ -164,7 +165,7 @@ def model_tuples(out):
     res = []
     for t in out:
         if t[0] == "text":
-            res.append(("text", t[1], t[2], tuple(t[3])))
+            res.append(("text", t[1], t[2], tuple(t[3]), t[4]))
         else:
             res.append(tuple(t))
     return Counter(res)
